@@ -1331,7 +1331,30 @@ run_case(Ctx& ctx)
         ctx.count("hessian_checks", w.nvox);
         ctx.count("penalised_full_hessian_checks");
       }
-      ctx.count("penalised_checks", 5);
+      // full-data penalised gradient: sum over all subsets of the unpenalised sub-gradients minus the WHOLE prior gradient
+      {
+        shared_ptr<Target> gf(w.image->get_empty_copy());
+        obj.compute_gradient(*gf, *L1);
+        const std::vector<float> gfv = World::vec_from(*gf);
+        for (int v = 0; v < w.nvox; ++v)
+          {
+            double sum = 0, sa = 0;
+            for (int t = 0; t < c.S; ++t)
+              {
+                sum += static_cast<double>(G[t][v]);
+                sa += std::fabs(G[t][v]);
+              }
+            const double e = sum - static_cast<double>(pgv[v]);
+            const double band = 8 * vf::EPS32 * (c.S + 2) * (sa + std::fabs(pgv[v]));
+            if (!vf::close_enough(static_cast<double>(gfv[v]), e, band))
+              return fail("penalised-full-gradient-is-not-unpenalised-minus-prior",
+                          vf::fmt("%d subsets, %s: STIR %.9g; sum of the unpenalised subset gradients %.9g - prior gradient %.9g = %.9g, band %.3g",
+                                  c.S, vox_name(w, v).c_str(), gfv[v], sum, pgv[v], e, band));
+          }
+        ctx.count("gradient_voxels_checked", w.nvox);
+        ctx.count("penalised_full_gradient_checks");
+      }
+      ctx.count("penalised_checks", 6);
     }
 
   // ---- re-configuration history (quantifier "histories"): ONE object is taken through 2..5 configurations; between two
